@@ -1703,6 +1703,29 @@ UPLOAD_INVS = ["NoPartialExposed", "BadRefused", "NoLeftovers", "GoodAccepted"]
 FILES_INVS = ["EditorExact", "ServerExact", "ReaderExact", "ServerSubset"]
 
 
+def files_trace_accepts(trace_path, devs, name, wd):
+    """FilesTrace.tla: is the recorded run a behaviour of Files.tla with these deviations?
+    (acceptance is the reachability of Done, reported by TLC as a violation of NotDone)"""
+    cfg = os.path.join(wd, "ft_%s.cfg" % name)
+    src = open(os.path.join(vlib.SPEC, "FilesTrace.cfg")).read()
+    with open(cfg, "w") as f:
+        f.write(src.replace("Deviations = {}", "Deviations = " + dev_set(devs)))
+    meta = os.path.join(vlib.WORK, "tlc_" + name)
+    shutil.rmtree(meta, ignore_errors=True)
+    env = dict(os.environ)
+    env["TRACE"] = trace_path
+    env["JAVA_TOOL_OPTIONS"] = "-Xss1g"
+    cmd = ["timeout", "300", "java", "-XX:+UseParallelGC", "-Xmx2g", "-cp", vlib.TLA_JAR, "tlc2.TLC",
+           "-metadir", meta, "-cleanup", "-noGenerateSpecTE", "-workers", "1", "-config", cfg, "FilesTrace.tla"]
+    p = subprocess.run(cmd, cwd=vlib.SPEC, env=env, stdout=subprocess.PIPE, stderr=subprocess.STDOUT, text=True)
+    shutil.rmtree(meta, ignore_errors=True)
+    if "Invariant NotDone is violated" in p.stdout:
+        return True
+    if "Model checking completed. No error has been found" in p.stdout:
+        return False
+    raise ToolError("FilesTrace on %s failed (rc=%d):\n%s" % (trace_path, p.returncode, p.stdout[-2000:]))
+
+
 @register("C17")
 def check_c17(tier, replay):
     prop = "C17"
@@ -1760,19 +1783,20 @@ def check_c17(tier, replay):
         raise ToolError("TLC emitted no upload schedules")
     # ---- (2) client side: Files.tla
     fconsts = {"Slots": '{"s1", "s2"}', "Folders": '{"d", "f1"}', "Contents": '{"c1", "c2"}',
-               "MaxOps": "4" if tier == "quick" else "5", "Deviations": "{}", "EmitBehaviours": "FALSE"}
+               "MaxOps": "4" if tier == "quick" else "5", "Deviations": "{}", "EmitBehaviours": "FALSE",
+               "Focus": "FALSE"}
     cfg = vlib.render_cfg("MC_Files.cfg", fconsts, os.path.join(wd, "f_prop.cfg"))
     rf = vlib.run_tlc("MC_Files", cfg, prop + "fp", timeout_s=1800)
     if rf.violated:
         raise ToolError("Files spec violates %s" % rf.violated)
-    for dev in ("NoMovedMissing", "ReaderKeepsDeleted"):
+    for dev in ("NoMovedMissing", "ReaderKeepsDeleted", "QueueUnordered"):
         cfg = vlib.render_cfg("MC_Files.cfg", dict(fconsts, MaxOps="4", Deviations=dev_set([dev])),
                               os.path.join(wd, "f_dev.cfg"))
         rdv = vlib.run_tlc("MC_Files", cfg, prop + "fd", timeout_s=900, coverage=False)
         if not rdv.violated:
             raise ToolError("Files.tla does not notice deviation %s" % dev)
-    depth = 9 if tier == "quick" else 10
-    want = 14 if tier == "quick" else 90
+    depth = 10 if tier == "quick" else 11
+    want = 16 if tier == "quick" else 90
     cfg = vlib.render_cfg("MC_Files.cfg", dict(fconsts, MaxOps=str(depth), EmitBehaviours="TRUE"),
                           os.path.join(wd, "f_emit.cfg"))
     raw = _emit_cases("MC_Files", cfg, prop + "fe", simulate=(max(4000, want * 40), depth * 8), timeout_s=600)
@@ -1791,9 +1815,25 @@ def check_c17(tier, replay):
         live = {}                  # slot -> folder (editor)
         pending = {}               # slot -> ops since the last reader sync
         deleted_folders = set()
+        offline_ops = None         # edits made while the server is unreachable
         for s in h:
             op = s["op"]
             k = op[0]
+            if k == "ServerDown":
+                offline_ops = []
+                continue
+            if k == "ServerUp":
+                ops_ = offline_ops or []
+                for o, _ in ops_:
+                    feats.add(("off", o, "clean"))
+                for i in range(len(ops_)):
+                    for j in range(i + 1, len(ops_)):
+                        rel = "same" if ops_[i][1] == ops_[j][1] else "other"
+                        feats.add(("offpair", ops_[i][0], ops_[j][0], rel, "clean"))
+                offline_ops = None
+                continue
+            if offline_ops is not None and k not in ("SyncReader",):
+                offline_ops.append((k, op[1] if len(op) > 1 else ""))
             if k == "SyncReader":
                 for sl, ops in pending.items():
                     if sl in reader_has:
@@ -1841,6 +1881,30 @@ def check_c17(tier, replay):
         chosen.append(h)
     rest = [h for _, h in pool]
     beh = (chosen + rest)[:want]
+    # every offline window of four edits on a fresh account (exhaustive), chosen by the pairs of
+    # operations (on the same / on different secrets) that wait in the queue together
+    cfg = vlib.render_cfg("MC_Files.cfg", dict(fconsts, MaxOps="6", EmitBehaviours="TRUE", Focus="TRUE"),
+                          os.path.join(wd, "f_focus.cfg"))
+    windows = _emit_cases("MC_Files", cfg, prop + "fw", timeout_s=600)
+    wpool = [(set(f for f in features(h) if f[0] in ("off", "offpair")), h) for h in windows]
+    rng.shuffle(wpool)
+    wchosen, wcovered = [], set()
+    want_w = 10 if tier == "quick" else 70
+    while wpool and len(wchosen) < want_w:
+        wpool.sort(key=lambda fh: -len(fh[0] - wcovered))
+        f, h = wpool.pop(0)
+        if not (f - wcovered):
+            break
+        wcovered |= f
+        wchosen.append(h)
+    if len(wchosen) < want_w:
+        wchosen += [h for _, h in wpool[:want_w - len(wchosen)]]
+    if not wchosen:
+        raise ToolError("TLC emitted no offline windows")
+    covered |= wcovered
+    # interleave so that the chunks get similar work
+    beh = beh + wchosen
+    rng.shuffle(beh)
     all_feats = set()
     for h in list(uniq.values()):
         all_feats |= features(h)
@@ -1848,7 +1912,8 @@ def check_c17(tier, replay):
     for h in beh:
         for s in h:
             ops[s["op"][0]] = ops.get(s["op"][0], 0) + 1
-    for a in ("CreateFile", "UpdateFile", "MoveFile", "DeleteSecret", "DeleteFolder", "SyncReader"):
+    for a in ("CreateFile", "UpdateFile", "MoveFile", "DeleteSecret", "DeleteFolder", "SyncReader", "ServerDown",
+              "ServerUp"):
         if not ops.get(a):
             raise ToolError("no generated behaviour contains %s" % a)
     vlib.cargo_build()
@@ -1883,7 +1948,52 @@ def check_c17(tier, replay):
         lambda p: [vlib.harness_bin("replay"), "files", p, os.path.join(scratch, os.path.basename(p)[:5]),
                    os.path.basename(p).split("_")[2].split(".")[0]],
         f_inputs, jobs=6, timeout_s=3400)
-    violations = s_up["violations"] + s_f["violations"]
+    # ---- (3) trace validation (FilesTrace.tla): recorded runs against the specification
+    known = vlib.known_keys(prop)
+    known_hits = []
+    tv = {"accepted_by_faithful": 0, "explained_by_QueueUnordered": 0, "rejected": 0}
+    jobs = []
+    for i, smp in enumerate(s_f["samples"]):
+        if isinstance(smp, dict) and smp.get("trace"):
+            jobs.append(("ok%d" % i, smp["trace"], None))
+    file_violations = []
+    for i, v in enumerate(s_f["violations"]):
+        d = v.get("detail", {})
+        if d.get("kind") == "server_settle" and d.get("log_pushed") and not d.get("stray") and i < 60:
+            jobs.append(("v%d" % i, d["trace"], v))
+        else:
+            file_violations.append(v)
+
+    def judge(job):
+        name, trace, v = job
+        tp = os.path.join(wd, "trace_%s.ndjson" % name)
+        with open(tp, "w") as f:
+            for line in trace:
+                f.write(json.dumps(line) + "\n")
+        faithful_ok = files_trace_accepts(tp, [], prop + "t" + name, wd)
+        unordered_ok = None
+        if not faithful_ok:
+            unordered_ok = files_trace_accepts(tp, ["QueueUnordered"], prop + "u" + name, wd)
+        return name, v, faithful_ok, unordered_ok
+    from concurrent.futures import ThreadPoolExecutor
+    with ThreadPoolExecutor(max_workers=6) as ex:
+        verdicts = list(ex.map(judge, jobs))
+    for name, v, faithful_ok, unordered_ok in verdicts:
+        if v is None:
+            if not faithful_ok:
+                raise ToolError("a run in which every check passed is not a behaviour of Files.tla (trace_%s.ndjson)" % name)
+            tv["accepted_by_faithful"] += 1
+        elif faithful_ok:
+            raise ToolError("Files.tla accepts a run whose server blobs differ from its file log (trace_%s.ndjson)" % name)
+        elif unordered_ok and "QueueUnordered" in known:
+            tv["explained_by_QueueUnordered"] += 1
+            known_hits.append(known["QueueUnordered"])
+        else:
+            tv["rejected"] += 1
+            file_violations.append(v)
+    if not tv["accepted_by_faithful"]:
+        raise ToolError("no recorded run was validated against Files.tla")
+    violations = s_up["violations"] + file_violations
     cover = {
         "states": ru.distinct + rf.distinct, "transitions": ru.generated + rf.generated,
         "traces_validated_against_impl": len(up_cases) + len(beh),
@@ -1905,9 +2015,11 @@ def check_c17(tier, replay):
                 "log) = reduce(editor log) with no stray files; after a reader sync the reader's blobs = reduce(its log).",
         "samples": (s_up["samples"][:2] + s_f["samples"][:1]), "exhaustive": tier != "quick",
         "upload_schedules": {"faithful": len(faithful), "racing": len(racing)},
-        "file_behaviours": len(beh), "file_operations": ops,
+        "file_behaviours": len(beh), "offline_windows_enumerated": len(windows),
+        "offline_windows_run": len(wchosen), "file_operations": ops,
         "reader_features_covered": sorted("/".join(map(str, f)) for f in covered),
         "reader_features_in_pool": len(all_feats),
+        "trace_validation": tv,
         "counters": {"upload": s_up["counters"], "files": s_f["counters"]},
     }
     assumptions = ["settle time %ss per step (VERIF_SETTLE_SECS): a set that is still wrong after it is reported"
@@ -1915,7 +2027,7 @@ def check_c17(tier, replay):
                    "only the first device edits; the second device syncs (the quantifier of the property)",
                    "file-system backend on both sides for the blob comparison"]
     vlib.write_evidence(prop, tier, "model_checking", cover, assumptions, time.time() - t0, len(violations))
-    return vlib.finish(prop, violations, [])
+    return vlib.finish(prop, violations, known_hits)
 
 
 @register("C14")
